@@ -322,6 +322,10 @@ impl C10 {
             (Tier::Thorough, false) => 4,
         }
     }
+    /// thorough: one level deeper for the language-free store (the growth factor is ~5 per level)
+    fn depth_for(&self, l: L, merged: bool) -> u32 {
+        self.depth(merged) + if self.tier == Tier::Thorough && merged && l == L::None { 1 } else { 0 }
+    }
 }
 
 impl Prop for C10 {
@@ -329,7 +333,7 @@ impl Prop for C10 {
         vec![Dom::new("bfs-configs", self.configs.len() as u64, 1)
             .budget(self.tier.pick(170, 3000))
             .note(format!(
-                "one merged BFS per (language, initial store) to depth {}, followed by the same search without state matching to depth {} (every key it reaches must be known to the merged search); 20 operations enabled in every state (19 when C01 drives it without clear)",
+                "one merged BFS per (language, initial store) to depth {} (thorough: +1 for the language-free store), followed by the same search without state matching to depth {} (every key it reaches must be known to the merged search); 20 operations enabled in every state (19 when C01 drives it without clear)",
                 self.depth(true),
                 self.depth(false)
             ))]
@@ -339,7 +343,7 @@ impl Prop for C10 {
         let sys = C10Sys { l, menu: menu(l), prop: "C10", allow_clear: !cx.c01 };
         let start: Vec<Op> = STARTS[s].iter().map(|i| Op::Add(*i)).collect();
         let cap = Duration::from_secs(self.tier.pick(120, 2400));
-        let out = bfs(&sys, cx, "merged_", vec![start.clone()], self.depth(true), true, cap, None);
+        let out = bfs(&sys, cx, "merged_", vec![start.clone()], self.depth_for(l, true), true, cap, None);
         cx.class(&format!("bfs:merged:depth{}", out.depth_completed));
         // dedup soundness cross-check (DESIGN.md §3.7b)
         let out2 = bfs(&sys, cx, "unmerged_", vec![start], self.depth(false), false, Duration::from_secs(self.tier.pick(40, 600)), Some(&out.seen));
